@@ -156,10 +156,16 @@ fn compare(model: &QpModel, inst: &v1::Instance) -> Result<Vec<(String, String)>
     Ok(out)
 }
 
+/// the line number an error text carries: the integer following the last occurrence of the word "line"
+/// (whatever the surrounding wording), else None
 fn line_of_error(msg: &str) -> Option<usize> {
-    let i = msg.rfind("at line ")?;
-    let rest = &msg[i + 8..];
-    let digits: String = rest.chars().take_while(|c| c.is_ascii_digit()).collect();
+    let lower = msg.to_lowercase();
+    let i = lower.rfind("line")?;
+    let rest = &msg[i + 4..];
+    let digits: String = rest.chars().skip_while(|c| !c.is_ascii_digit()).take_while(|c| c.is_ascii_digit()).collect();
+    if rest.chars().take_while(|c| !c.is_ascii_digit()).count() > 4 {
+        return None;
+    }
     digits.parse().ok()
 }
 
